@@ -23,16 +23,15 @@ def bankKey (a : Addr) : Key := lp (utf8 "bank") ++ lp (utf8 "balances") ++ utf8
 def contractKey (a : Addr) : Key := lp (utf8 "wasm") ++ lp (utf8 "contracts") ++ utf8 a
 def storeKey (a : Addr) (k : Key) : Key := lp (utf8 "wasm") ++ lp (utf8 ("contract_data/" ++ a)) ++ k
 
-def flattenBank (b : Bank.State) (s : Store Val) : Store Val :=
-  b.foldl (fun s p => s.set (bankKey p.1) (Json.balancesJson p.2)) s
+/-- the raw records of the bank, the contract registry and the contracts' own stores, in this order -/
+def records (ch : Chain E) : List (Key × Val) :=
+  ch.bank.map (fun p => (bankKey p.1, Json.balancesJson p.2)) ++
+  (ch.contracts.map (fun p => (contractKey p.1, Json.contractJson p.2)) ++
+   ch.cstore.flatMap (fun p => p.2.map fun kv => (storeKey p.1 kv.1, kv.2)))
 
-def flattenContracts (c : AMap ContractData) (s : Store Val) : Store Val :=
-  c.foldl (fun s p => s.set (contractKey p.1) (Json.contractJson p.2)) s
+/-- writing the records one after another into an empty store -/
+def writeAll (l : List (Key × Val)) (s : Store Val) : Store Val := l.foldl (fun s r => s.set r.1 r.2) s
 
-def flattenCstore (c : AMap (Store Val)) (s : Store Val) : Store Val :=
-  c.foldl (fun s p => p.2.foldl (fun s kv => s.set (storeKey p.1 kv.1) kv.2) s) s
-
-def flatten (ch : Chain E) : Store Val :=
-  flattenCstore ch.cstore (flattenContracts ch.contracts (flattenBank ch.bank []))
+def flatten (ch : Chain E) : Store Val := writeAll (records ch) []
 
 end CwMt.Flat
